@@ -210,8 +210,22 @@ fn one_case(t: i32, i: usize, ctx: &Ctx, rep: &mut Report, dir: &str) {
         Err(p) => return rep.violation(&format!("read/{}/panic", type_name(t)), &case, J::obj(vec![("panic", J::s(p.class())), ("shp_hex", J::bytes_hex(&shp))])),
     }
     if on_disk {
-        let base = format!("{}/t{}_{}", dir, t, i);
-        let path = format!("{}.shp", base);
+        // file names rotate through styles a path-based constructor has to cope with: upper-case
+        // extension, extra dots, spaces and non-ASCII characters, a name in a dotted directory
+        let style = (i / 4) % 5;
+        let stem = match style {
+            0 => format!("t{}_{}", t, i),
+            1 => format!("T{}_{}", t, i),
+            2 => format!("t{}.{}.v2", t, i),
+            3 => format!("t{} {} \u{e9}\u{4e2d}", t, i),
+            _ => format!("dir.with.dots/t{}_{}", t, i),
+        };
+        if style == 4 {
+            let _ = std::fs::create_dir_all(format!("{}/dir.with.dots", dir));
+        }
+        let base = format!("{}/{}", dir, stem);
+        let path = format!("{}.{}", base, if style == 1 { "SHP" } else { "shp" });
+        rep.count(&format!("path_name_style_{}", style), 1);
         let wp = panicmon::catch(|| -> Result<(), Error> {
             let mut w = ShapeWriter::from_path(&path)?;
             for s in &shapes {
